@@ -429,7 +429,7 @@ pub fn gen_world(rng: &mut Rng, p: &WorldParams) -> World {
 pub fn gen_world_on(rng: &mut Rng, p: &WorldParams, net: RefNet) -> World {
     let ne = net.ne();
     let speed = p.allow_speed && rng.chance(0.6);
-    let du = *rng.pick(&U::DISTANCE_UNITS[..3]);
+    let du = *rng.pick(&U::DISTANCE_UNITS);
     let tu = *rng.pick(&U::TIME_UNITS);
     let trav = if speed {
         let su = *rng.pick(&U::SPEED_UNITS);
